@@ -9,8 +9,9 @@ Definition shipped : shape :=
   {| sh_after_timer := reset_check_after_timer_event; sh_after_message := reset_check_after_message_event; sh_ledger := processblock_advances_ledger |}.
 
 Theorem shipped_loop_drives_the_library_by_its_contract :
-  calls_start = true /\ timer_case_calls_ontimeout = true /\ message_case_calls_onreceive = true /\ good shipped.
-Proof. exact (conj eq_refl (conj eq_refl (conj eq_refl (conj eq_refl (conj eq_refl eq_refl))))). Qed.
+  calls_start = true /\ timer_case_calls_ontimeout = true /\ message_case_calls_onreceive = true /\ good shipped /\
+  timer_case_passes_timer_epoch = true.   (* OnTimeout is given the height and view the timer was armed for *)
+Proof. exact (conj eq_refl (conj eq_refl (conj eq_refl (conj (conj eq_refl (conj eq_refl eq_refl)) eq_refl)))). Qed.
 Print Assumptions shipped_loop_drives_the_library_by_its_contract.
 
 (* for every start height, every sequence of timer / message events and every choice of which of them complete a block:
@@ -18,7 +19,7 @@ Print Assumptions shipped_loop_drives_the_library_by_its_contract.
 Theorem simulation_extends_chain_as_often_as_the_library_decides h0 es :
   let s0 := {| ledger := h0; blockIndex := S h0; decided := false |} in
   ledger (fold_left (step shipped) es s0) = h0 + decisions shipped s0 es /\ decided (fold_left (step shipped) es s0) = false.
-Proof. exact (driver_extends_chain shipped h0 es (proj2 (proj2 (proj2 shipped_loop_drives_the_library_by_its_contract)))). Qed.
+Proof. exact (driver_extends_chain shipped h0 es (proj1 (proj2 (proj2 (proj2 shipped_loop_drives_the_library_by_its_contract))))). Qed.
 Print Assumptions simulation_extends_chain_as_often_as_the_library_decides.
 
 (* the defect repaired by the fix: commit (D6): without the check after an event kind the chain stops at the first block
